@@ -6,6 +6,7 @@ Import ListNotations.
 
 Inductive fstmt : Type :=
 | SSplitPath                       (* dir, file := filepath.Split(path) *)
+| SDirDot                          (* if dir == "" { dir = "." } *)
 | SCreateTemp                      (* f, err := os.CreateTemp(dir, file) *)
 | SRetIfErr                        (* if err != nil { return } *)
 | STmpName                         (* tmpfile := f.Name() *)
@@ -19,4 +20,5 @@ Inductive fstmt : Type :=
 | SRemoveTmp                       (* os.Remove(tmpfile) *)
 | SRemovePath                      (* os.Remove(path) *)
 | SReturn                          (* return *)
-| SReturnRename.                   (* return os.Rename(tmpfile, path) *)
+| SReturnRename                    (* return os.Rename(tmpfile, path) *)
+| SRenameElse (b : list fstmt).    (* if err = os.Rename(tmpfile, path); err != nil { b } *)
